@@ -352,7 +352,15 @@ TRUSTED = [
 ]
 
 if __name__ == "__main__":
+    import translate_blocks
+    from common import source_obligation, REAL_AXIOMS
     main("C09", [PhysicsStream(), IfaceStream()],
+         source_obligations=[
+             source_obligation("BlocksSrc_C09", translate_blocks.translate, "BlocksSrcProof.v",
+                               ["Waveguide_src_ok", "PhaseShifter_src_ok", "PushPull_src_ok", "TH_PhaseShifter_src_ok",
+                                "Attenuator_src_ok", "LinearAttenuator_src_ok", "Mirror_src_ok", "PerfectMirror_src_ok",
+                                "BeamSplitter_src_ok", "BeamSplitterT_src_ok", "Splitter1x2_src_ok", "PolRot_fixed_src_ok",
+                                "PolRot_var_src_ok"], allowed_axioms=REAL_AXIOMS)],
          level_text="props/C09.v: for all real parameter values in the stated range every documented block realises its "
                     "transfer function / power ratios, lossless blocks are unitary, lossy ones passive, and |S_ij| = |S_ji|. The "
                     "tie samples each block (also inside a solver, also with integer-typed arguments), and for every sample "
